@@ -54,7 +54,7 @@ def hydrostatic(z, T, S):
 
 
 def make_cast(rng, nmin=3, nmax=500, n_extra=None, with_pressure=None, noise=None, inversions=None,
-              invert_last=None, z_top=None, unit_variety=True, max_extra=6):
+              invert_last=None, z_top=None, unit_variety=True, max_extra=6, nop_extras=False, shuffle_order=0.4):
     """one synthetic cast in standard units, depths strictly increasing"""
     npr = np.random.default_rng(rng.getrandbits(63))
     u = rng.random()
@@ -110,8 +110,8 @@ def make_cast(rng, nmin=3, nmax=500, n_extra=None, with_pressure=None, noise=Non
     if n_extra is None:
         n_extra = rng.choice([0, 0, 1, 2, 3, max_extra])
     n_extra = min(n_extra, max_extra)
-    if not with_pressure:
-        n_extra = 0       # only the 3-column array form lets tamoc integrate the pressure; it carries no extras
+    if not with_pressure and not nop_extras:
+        n_extra = 0       # (the 3-column array form, the one that reaches the pressure integration, carries no extras)
     pool = CONC_NAMES + VEL_NAMES
     rng.shuffle(pool)
     extra = []
@@ -136,8 +136,12 @@ def make_cast(rng, nmin=3, nmax=500, n_extra=None, with_pressure=None, noise=Non
         units['P'] = rng.choice(list(UNITS_P))
         for name, su, _v in extra:
             units[name] = rng.choice(list(UNITS_V if su == 'm/s' else UNITS_C))
-    return {'z': z, 'T': T, 'S': S, 'P': P, 'extra': extra, 'units': units,
-            'meta': {'levels': n, 'z_top': float(z[0]), 'depth': float(depth), 'spacing': style, 'noise': noise,
+    # order of the data variables in dataset forms (xarray / netCDF); the array form is positional (canonical)
+    order = ['temperature', 'salinity'] + (['pressure'] if with_pressure else []) + [e[0] for e in extra]
+    if rng.random() < shuffle_order:
+        rng.shuffle(order)
+    return {'z': z, 'T': T, 'S': S, 'P': P, 'extra': extra, 'units': units, 'order': order,
+            'meta': {'variable_order': list(order), 'levels': n, 'z_top': float(z[0]), 'depth': float(depth), 'spacing': style, 'noise': noise,
                      'inversion_rows': sorted(inv_rows), 'inverted_last': bool(invert_last),
                      'with_pressure': bool(with_pressure), 'extra': [e[0] for e in extra], 'units': dict(units)}}
 
@@ -153,27 +157,25 @@ def from_units(values, unit):
     return np.asarray(values, dtype=float) * f + o
 
 
-def cast_table(cast):
-    """(data, names, units) as handed to tamoc, in the cast's unit system.  Columns: z, T, S, [P], extras"""
+def cast_table(cast, dataset_order=False):
+    """(data, names, units) as handed to tamoc, in the cast's unit system.  Columns: z, T, S, [P], extras
+    (canonical) or z followed by the variables in cast['order'] (dataset forms)"""
     u = cast['units']
-    cols = [to_units(cast['z'], u['z']), to_units(cast['T'], u['T']), to_units(cast['S'], u['S'])]
-    names = ['z', 'temperature', 'salinity']
-    units = [u['z'], u['T'], u['S']]
+    col = {'temperature': (cast['T'], u['T']), 'salinity': (cast['S'], u['S'])}
     if cast['P'] is not None:
-        cols.append(to_units(cast['P'], u['P']))
-        names.append('pressure')
-        units.append(u['P'])
+        col['pressure'] = (cast['P'], u['P'])
     for name, _su, v in cast['extra']:
-        cols.append(to_units(v, u[name]))
-        names.append(name)
-        units.append(u[name])
-    return np.column_stack(cols), names, units
+        col[name] = (v, u[name])
+    canon = ['temperature', 'salinity'] + (['pressure'] if cast['P'] is not None else []) + [e[0] for e in cast['extra']]
+    order = list(cast.get('order', canon)) if dataset_order else canon
+    cols = [to_units(cast['z'], u['z'])] + [to_units(col[nm][0], col[nm][1]) for nm in order]
+    return np.column_stack(cols), ['z'] + order, [u['z']] + [col[nm][1] for nm in order]
 
 
-def standard_table(cast):
+def standard_table(cast, dataset_order=False):
     """the values tamoc must hold after ITS unit conversion of cast_table (value*factor+offset, as
-    convert_units does it) — bitwise what the code computes, in dataset column order"""
-    data, names, units = cast_table(cast)
+    convert_units does it) — bitwise what the code computes"""
+    data, names, units = cast_table(cast, dataset_order)
     out = np.column_stack([from_units(data[:, j], units[j]) for j in range(data.shape[1])])
     return out, names, [STANDARD[x] for x in units]
 
@@ -256,46 +258,71 @@ def _fresh(workdir, stem):
     return os.path.join(workdir, '%s_%d_%d.nc' % (stem, os.getpid(), _counter[0]))
 
 
+class NotApplicable(Exception):
+    """the input form cannot express this cast at all (nothing of tamoc was called)"""
+
+
 def build_profile(cast, route, workdir, err=0.01, stabilize=True):
-    """construct ambient.Profile from the SAME table through one of the four routes"""
+    """construct ambient.Profile from the SAME cast through one input form.  Dataset forms (xarray, netCDF)
+    store the variables in cast['order']; whatever tamoc raises is passed on to the caller."""
     from tamoc import ambient
-    data, names, units = cast_table(cast)
     chem_names, chem_units = chem_lists(cast)
     ztsp = ['z', 'temperature', 'salinity', 'pressure']
     has_p = cast['P'] is not None
     if route == 'array':
+        data, names, units = cast_table(cast)
         if not has_p and chem_names:
-            raise ValueError('array form without pressure cannot carry extra variables')
+            raise NotApplicable('a positional array without a pressure column cannot carry extra variables')
         zu = units[:4] if has_p else units[:3] + ['Pa']
         p = ambient.Profile(np.array(data), ztsp=list(ztsp), chem_names=list(chem_names), err=err,
                             ztsp_units=list(zu), chem_units=list(chem_units), stabilize_profile=stabilize)
         return Built(p, route, [])
-    if route == 'xarray' and has_p:
-        ds = make_xarray(data, names, units)
-        p = ambient.Profile(ds, ztsp=list(ztsp), chem_names=list(chem_names), err=err, stabilize_profile=stabilize)
+    data, names, units = cast_table(cast, dataset_order=True)
+    if route == 'xarray':
+        p = ambient.Profile(make_xarray(data, names, units), ztsp=list(ztsp), chem_names=list(chem_names), err=err,
+                            stabilize_profile=stabilize)
         return Built(p, route, [])
-    if not has_p:
-        raise ValueError('this input form needs a pressure variable')
+    if route == 'baseprofile':
+        p = ambient.BaseProfile(make_xarray(data, names, units), ztsp=list(ztsp), chem_names=list(chem_names),
+                                chem_units=list(chem_units), err=err, stabilize_profile=stabilize)
+        return Built(p, route, [])
     path = _fresh(workdir, 'cast')
     write_netcdf(path, data, names, units)
-    if route == 'ncfile':
-        p = ambient.Profile(path, ztsp=list(ztsp), chem_names=list(chem_names), err=err, stabilize_profile=stabilize)
-        return Built(p, route, [path])
-    if route == 'ncdataset':
-        from netCDF4 import Dataset
-        nc = Dataset(path, 'a')
-        p = ambient.Profile(nc, ztsp=list(ztsp), chem_names=list(chem_names), err=err, stabilize_profile=stabilize)
-        return Built(p, route, [path], nc)
+    try:
+        if route == 'ncfile':
+            p = ambient.Profile(path, ztsp=list(ztsp), chem_names=list(chem_names), err=err, stabilize_profile=stabilize)
+            return Built(p, route, [path])
+        if route == 'ncdataset':
+            from netCDF4 import Dataset
+            nc = Dataset(path, 'a')
+            try:
+                p = ambient.Profile(nc, ztsp=list(ztsp), chem_names=list(chem_names), err=err, stabilize_profile=stabilize)
+            except Exception:
+                nc.close()
+                raise
+            return Built(p, route, [path], nc)
+    except Exception:
+        try:
+            os.remove(path)
+        except OSError:
+            pass
+        raise
     raise ValueError(route)
 
 
 def routes_for(cast):
-    """the input forms able to carry this cast"""
+    """input forms that construct a profile from this cast on the code as documented"""
     if cast['P'] is not None:
         return list(ROUTES)
-    # Profile._from_xarray_Dataset / get_nc_data / _from_netCDF_file read the units of all four ztsp
-    # variables: only the 3-column array form reaches the pressure integration
-    return ['array']
+    return ['array'] if not cast['extra'] else []
+
+
+def all_routes(cast):
+    """every input form that can EXPRESS this cast (whether or not tamoc then accepts it)"""
+    r = ['xarray', 'ncfile', 'ncdataset', 'baseprofile']
+    if cast['P'] is not None or not cast['extra']:
+        r = ['array'] + r
+    return r
 
 
 def claimed_table(profile):
